@@ -88,6 +88,23 @@ func c04Positions(level int) []c04Pos {
 			}
 			return J{"type": "object", "properties": J{"c": J{"allOf": branches}}, "required": A{"c"}, "$defs": J{"Base": base}}
 		}, []any{"c"}})
+	// the object that carries the required list also says something about undeclared keys (the catch-all field is added to the same struct)
+	withAP := func(o J, ap any) J {
+		c := space.Clone(o)
+		c["additionalProperties"] = ap
+		return c
+	}
+	ps = append(ps,
+		c04Pos{"root+ap-string", func(o J) J { return withAP(o, J{"type": "string"}) }, nil},
+		c04Pos{"nested+ap-integer", func(o J) J {
+			return J{"type": "object", "properties": J{"o": withAP(o, J{"type": "integer"})}, "required": A{"o"}}
+		}, []any{"o"}},
+		c04Pos{"def+ap-false", func(o J) J {
+			return J{"type": "object", "properties": J{"p": J{"$ref": "#/$defs/O"}}, "required": A{"p"}, "$defs": J{"O": withAP(o, false)}}
+		}, []any{"p"}},
+		c04Pos{"item+ap-true", func(o J) J {
+			return J{"type": "object", "properties": J{"a": J{"type": "array", "items": withAP(o, true)}}, "required": A{"a"}}
+		}, []any{"a", 0}})
 	if level >= 1 {
 		ps = append(ps,
 			c04Pos{"optnested", func(o J) J { return J{"type": "object", "properties": J{"o": o}} }, []any{"o"}},
